@@ -225,12 +225,31 @@ Proof.
 Qed.
 
 (* one-sided shutdown: only A's user calls Shutdown; 0, 1 or 2 messages queued on either side, writes at any time *)
-Lemma sd_checks_one : sd_all_checks sd_cfg_one 3153 = true.
+Lemma sd_checks_one : sd_all_checks sd_cfg_one 3222 = true.
 Proof. vm_compute. reflexivity. Qed.
 
-Lemma sd_size_one : Z.of_nat (sd_set_size sd_cfg_one) = 3153.
+Lemma sd_size_one : Z.of_nat (sd_set_size sd_cfg_one) = 3222.
 Proof. exact (sd_all_checks_size _ _ sd_checks_one). Qed.
 
 Lemma sd_one_sided : forall s, sd_reach sd_cfg_one s ->
   sd_sys_safe s = true /\ sd_sys_inv s = true /\ (sd_started s = true -> sd_eventually_closed s).
 Proof. exact (sd_all_checks_sound _ _ sd_checks_one). Qed.
+
+(* safety only (no ranks): for the configuration in which the transport may fail, an ABORT may arrive and the user may call
+   Close at any time *)
+Definition sd_safety_checks (c : sd_cfg) (size : Z) : bool :=
+  let m := sd_reach_set c in
+  let elems := sd_selems sd_sys m in
+  forallb (fun x => sd_smem sd_sys sd_sys_eqb sd_key x m) sd_inits &&
+  sd_closed_check sd_sys sd_sys_eqb sd_key (sd_succs c) m &&
+  forallb sd_sys_safe elems &&
+  (Z.of_nat (length elems) =? size).
+
+Lemma sd_safety_checks_sound c n :
+  sd_safety_checks c n = true -> forall s, sd_reach c s -> sd_sys_safe s = true.
+Proof.
+  unfold sd_safety_checks. cbv zeta. intros H s Hs.
+  apply andb_true_iff in H. destruct H as [H _].
+  apply andb_true_iff in H. destruct H as [H Hp]. apply andb_true_iff in H. destruct H as [Hi Hc].
+  exact (sd_forall_sound sd_sys sd_sys_eqb sd_key sd_sys_eqb_eq (sd_succs c) sd_inits _ _ Hi Hc Hp s Hs).
+Qed.
